@@ -13,7 +13,7 @@ GOOD = (PROVED, OK, BOUNDED_OK)
 class Case:
     """one unit of work: fn(*args) -> dict(results=[obligation dicts], functions=[...], assumptions=[...], samples=[...])
     or simply a list of obligation dicts, or a HwCheck (run by the worker)."""
-    def __init__(self, cid, fn, *args, tier="quick", timeout=600, **kw):
+    def __init__(self, cid, fn, *args, tier="quick", timeout=420, **kw):
         self.cid, self.fn, self.args, self.kw, self.tier, self.timeout = cid, fn, args, kw, tier, timeout
 
 def load_contracts(prop):
@@ -56,6 +56,49 @@ def _worker(prop, modname, cid):
     out["wall_s"] = round(time.time() - t0, 2)
     return out
 
+def _child(conn, prop, modname, cid):
+    try:
+        out = _worker(prop, modname, cid)
+        try: conn.send(out)
+        except Exception as e:      # unpicklable detail in a result: keep the verdicts, drop the detail
+            slim = dict(out); slim["results"] = [{k: (v if isinstance(v, (str, int, float, bool, type(None))) else str(v)[:2000]) for k, v in r.items()} for r in out["results"]]
+            slim["samples"] = []; conn.send(slim)
+    finally:
+        conn.close()
+
+def _run_pool(prop, todo, jobs):
+    """one forked process per case, at most `jobs` at a time; a case that exceeds its wall-clock limit is killed and reported as UNDECIDED
+    (never a violation, never a proof) so that a check cannot hang"""
+    ctx = mp.get_context("fork")
+    scale = float(os.environ.get("VERIF_TIMEOUT_SCALE", "1"))
+    pending = list(todo); running = {}; outs = []
+    while pending or running:
+        while pending and len(running) < jobs:
+            mn, cid, to = pending.pop(0)
+            rx, tx = ctx.Pipe(duplex=False)
+            p = ctx.Process(target=_child, args=(tx, prop, mn, cid), daemon=False); p.start(); tx.close()
+            running[p.pid] = (p, rx, cid, time.time(), (to or 600) * scale)
+        time.sleep(0.02)
+        for pid, (p, rx, cid, t0, to) in list(running.items()):
+            got = None
+            try:
+                if rx.poll(): got = rx.recv()
+            except (EOFError, OSError): got = None
+            if got is not None:
+                outs.append(got); p.join(5); rx.close(); del running[pid]; continue
+            if not p.is_alive():
+                try:
+                    if rx.poll(): got = rx.recv()
+                except (EOFError, OSError): got = None
+                outs.append(got if got is not None else dict(cid=cid, results=[dict(name="harness", kind="harness", status=FAULT, secs=0, backend="", info=f"worker died (exit code {p.exitcode})")],
+                                                                 functions=[], assumptions=[], samples=[], wall_s=round(time.time() - t0, 2)))
+                rx.close(); del running[pid]; continue
+            if time.time() - t0 > to:
+                p.kill(); p.join(5); rx.close(); del running[pid]
+                outs.append(dict(cid=cid, results=[dict(name="time-limit", kind="ensures", status=UNKNOWN, secs=round(to, 1), backend="", info=f"case stopped after its wall-clock limit of {to:.0f}s: undecided")],
+                                 functions=[], assumptions=[], samples=[], wall_s=round(time.time() - t0, 2)))
+    return outs
+
 def load_known(prop):
     p = os.path.join(ROOT, "known_findings.json")
     if not os.path.exists(p): return []
@@ -76,17 +119,7 @@ def run_property(prop, tier, meta, only=None, jobs=None):
             meta.setdefault(k.lower(), [])
             meta[k.lower()] += list(getattr(m, k, []))
     jobs = jobs or int(os.environ.get("VERIF_JOBS", "14"))
-    outs = []
-    ctx = mp.get_context("fork")
-    with cf.ProcessPoolExecutor(max_workers=jobs, mp_context=ctx) as ex:
-        futs = {ex.submit(_worker, prop, mn, cid): (cid, to) for mn, cid, to in todo}
-        for f in cf.as_completed(futs):
-            cid, to = futs[f]
-            try:
-                outs.append(f.result())
-            except Exception as e:
-                outs.append(dict(cid=cid, results=[dict(name="harness", kind="harness", status=FAULT, secs=0, backend="", info=f"worker died: {e}")],
-                                 functions=[], assumptions=[], samples=[], wall_s=0))
+    outs = _run_pool(prop, todo, jobs)
     outs.sort(key=lambda o: o["cid"])
     return finish(prop, tier, seed, meta, outs, t0, len(todo))
 
